@@ -514,8 +514,17 @@ pub fn gen_config(r: &mut Rng, lans: &[Lan], clients: &[ClientSpec], allow_polic
                 });
             }
             _ => {
-                /* an apply-range pool, possibly touching both ends of the host range */
-                let (lo, hi) = if r.chance(0.5) || hs.len() < 3 {
+                /* an apply-range pool, possibly touching both ends of the host range; when the
+                 * run has several configurations, ranges are often one half of the LAN or all
+                 * of it, so that swapping configurations gives disjoint pools and their union */
+                let (lo, hi) = if hs.len() >= 4 && r.chance(0.5) {
+                    let mid = hs.len() / 2;
+                    match r.below(3) {
+                        0 => (hs[0], hs[mid - 1]),
+                        1 => (hs[mid], *hs.last().unwrap()),
+                        _ => (hs[0], *hs.last().unwrap()),
+                    }
+                } else if r.chance(0.5) || hs.len() < 3 {
                     (hs[0], *hs.last().unwrap())
                 } else {
                     let a = r.below(hs.len() as u64) as usize;
@@ -677,6 +686,7 @@ fn profile(shape: &str) -> Profile {
         "rhythm" => Profile { lans: &[1], w_dhcp: 90, w_clock: 8, w_restart: 2, w_swap: 0, w_http: 0, w_diskfault: 0, rhythm: true, tracers: false, two_configs: 0.0, odd_hlen: 0.0, ..base },
         "wire" => Profile { w_restart: 1, w_http: 0, w_diskfault: 0, tracers: true, odd_hlen: 0.25, ..base },
         "listing" => Profile { w_http: 22, w_dhcp: 64, w_diskfault: 0, nasty: 1.0, tracers: false, ..base },
+        "poolchange" => Profile { lans: &[1, 1, 2], w_swap: 16, w_restart: 4, w_http: 0, w_diskfault: 0, w_clock: 3, two_configs: 1.0, tracers: false, odd_hlen: 0.0, ..base },
         "pairbase" => Profile { w_restart: 0, w_swap: 0, w_http: 0, w_diskfault: 0, two_configs: 0.0, ..base },
         "hostile" => Profile { w_raw: 40, w_dhcp: 45, w_http: 0, w_diskfault: 0, ..base },
         _ => base,
@@ -708,7 +718,7 @@ pub fn generate(seed: u64, opts: &GenOpts) -> PlanA {
     let nlans = *r.pick(pf.lans);
     let lans: Vec<Lan> = (0..nlans).map(|i| gen_lan(&mut r, i, false)).collect();
     let nasty = r.chance(pf.nasty);
-    let nclients = r.range(1, if opts.thorough { 8 } else { 5 }) as usize;
+    let nclients = if shape == "poolchange" { r.range(1, 2) } else { r.range(1, if opts.thorough { 8 } else { 5 }) } as usize;
     let mut clients: Vec<ClientSpec> = (0..nclients)
         .map(|i| {
             let hlen = if !r.chance(pf.odd_hlen) { 6 } else { r.range(0, 16) as usize };
@@ -729,8 +739,25 @@ pub fn generate(seed: u64, opts: &GenOpts) -> PlanA {
         clients[0].client_id = Some(id.clone());
         clients[1].client_id = Some(id);
     }
-    let ncfg = if r.chance(pf.two_configs) { 2 } else { 1 };
-    let configs: Vec<ConfModel> = (0..ncfg).map(|_| gen_config(&mut r, &lans, &clients, true, pf.tracers)).collect();
+    let ncfg = if r.chance(pf.two_configs) { if shape == "poolchange" || r.chance(0.3) { 3 } else { 2 } } else { 1 };
+    let mut configs: Vec<ConfModel> = (0..ncfg).map(|_| gen_config(&mut r, &lans, &clients, true, pf.tracers)).collect();
+    if shape == "poolchange" {
+        /* every LAN served from apply-range pools: halves and the whole */
+        for c in configs.iter_mut() {
+            c.addresses.clear();
+            c.policies.clear();
+            for lan in &lans {
+                let hs: Vec<u32> = hosts(lan.network(), lan.plen).into_iter().collect();
+                let mid = (hs.len() / 2).max(1);
+                let (lo, hi) = match r.below(3) {
+                    0 => (hs[0], hs[mid - 1]),
+                    1 if mid < hs.len() => (hs[mid], *hs.last().unwrap()),
+                    _ => (hs[0], *hs.last().unwrap()),
+                };
+                c.policies.push(PolicyM { match_subnet: Some((Ipv4Addr::from(lan.network()), lan.plen)), apply_range: vec![(lo.into(), hi.into())], ..Default::default() });
+            }
+        }
+    }
 
     let mut steps: Vec<Step> = vec![];
     let mut t: u64 = 1000;
@@ -743,6 +770,9 @@ pub fn generate(seed: u64, opts: &GenOpts) -> PlanA {
         /* time between steps: from the same instant to days */
         let gap = if same_instant_run && r.chance(p_same) {
             0
+        } else if shape == "poolchange" {
+            /* short gaps: leases acquired under one pool are still running under the next */
+            *r.pick(&[5u64, 500, 2_000, 10_000, 30_000, 60_000, 120_000, 400_000])
         } else if pf.rhythm {
             *r.pick(&[1_000u64, 1_000, 30_000, 149_000, 150_000, 151_000, 299_000, 300_000, 301_000, 600_000, 3_600_000, 43_200_000, 86_399_000, 86_400_000, 86_401_000, 172_800_000])
         } else {
